@@ -9,5 +9,6 @@ import Spydr.Eblif.Props.C18
 #print axioms Spydr.Eblif.one_instance_per_stmt
 #print axioms Spydr.Eblif.names_latch_shape
 #print axioms Spydr.Eblif.blackbox_leaf
+#print axioms Spydr.Eblif.parse_rendered_subckt
 #print axioms Spydr.Eblif.eblif_reader_spec_partial
 #print axioms Spydr.Eblif.eblif_roundtrip_partial
